@@ -237,8 +237,16 @@ func (q *TransmitLimitedQueue) deleteItem(cur *limitedBroadcast) {
 	if cur.name != "" {
 		delete(q.tm, cur.name)
 	}
+}
 
-	if q.tq.Len() == 0 {
+// resetIDGenIfIdleLocked restarts the id generator once the queue is really
+// empty. This must only run at the end of an operation: while items are held
+// out for re-insertion (GetBroadcasts) or a new item is about to be added
+// (queueBroadcast) the tree can be momentarily empty, and restarting the
+// generator then hands out ids that collide with the ones still in use.
+// You must already hold the mutex.
+func (q *TransmitLimitedQueue) resetIDGenIfIdleLocked() {
+	if q.lenLocked() == 0 {
 		// At idle there's no reason to let the id generator keep going
 		// indefinitely.
 		q.idGen = 0
@@ -357,6 +365,7 @@ func (q *TransmitLimitedQueue) GetBroadcasts(overhead, limit int) [][]byte {
 	for _, cur := range reinsert {
 		q.addItem(cur)
 	}
+	q.resetIDGenIfIdleLocked()
 
 	return toSend
 }
@@ -408,4 +417,5 @@ func (q *TransmitLimitedQueue) Prune(maxRetain int) {
 		cur.b.Finished()
 		q.deleteItem(cur)
 	}
+	q.resetIDGenIfIdleLocked()
 }
